@@ -74,7 +74,9 @@ Tok(i) == IF cfg.forked /\ i >= cfg.forkAt THEN <<"f", i>> ELSE <<"h", i>>
 Leaf(tok, id) == [tok |-> tok, id |-> id]
 SrcLeaf(i) == Leaf(Tok(i), "ok")          \* what must be stored under index i: the entry verbatim + the configured identity hash
 OldLeaf(i) == Leaf(<<"h", i>>, "ok")      \* what the destination was filled with earlier
-Consistent(n) == ~cfg.forked \/ n <= cfg.forkAt
+\* a proof from the destination's root of size n to an STH of the served history exists iff the destination's
+\* first n leaves are the served history's first n entries
+Consistent(n) == \A i \in 0..(n - 1) : dest[i] # None /\ dest[i].tok = Tok(i)
 Contig == IF \A i \in Idx : dest[i] # None THEN MaxIdx ELSE CHOOSE n \in Idx : dest[n] = None /\ \A i \in 0..(n - 1) : dest[i] # None
 Has(k) == k \in FaultKinds /\ faults > 0
 
@@ -88,8 +90,9 @@ Terminal == flags' = flags \cup {"terminal"}     \* a fault after which completi
 \* different content under an occupied index: refused, and recorded.
 Store(leaves) ==
   /\ dest' = [i \in Idx |-> IF i \in DOMAIN leaves /\ dest[i] = None THEN leaves[i] ELSE dest[i]]
-  /\ flags' = flags \cup (IF \E i \in DOMAIN leaves : dest[i] # None /\ dest[i] # leaves[i] THEN {"conflict"} ELSE {})
+  /\ flags' = flags \cup (IF \E i \in DOMAIN leaves \cap Idx : dest[i] # None /\ dest[i] # leaves[i] THEN {"conflict"} ELSE {})
                     \cup (IF root > 0 /\ ~proved THEN {"ungated"} ELSE {})
+                    \cup (IF DOMAIN leaves \subseteq Idx THEN {} ELSE {"outOfRange"})
 BatchLeaves(s, n) == [i \in s..(s + n - 1) |-> SrcLeaf(i)]
 
 (* ---------- controller ---------- *)
@@ -172,9 +175,11 @@ Take(b) ==
   /\ hold' = hold \cup {[s |-> b.s, n |-> b.n, st |-> "try"]}
   /\ UNCHANGED <<cfg, dest, out, envv, faults, restarts, verified, flags, pass, calls, hist, ctl>>
 
-Submit(h) ==
+\* leaves: what the request carries (BatchLeaves(h.s, h.n) for the migrator this specification describes;
+\* trace validation passes what the real request carried)
+SubmitL(h, leaves) ==
   /\ pc = "run" /\ h \in hold /\ h.st = "try" /\ Call
-  /\ \/ /\ Store(BatchLeaves(h.s, h.n))
+  /\ \/ /\ Store(leaves)
         /\ hold' = hold \ {h}
         /\ Log([ev |-> "Add", pass |-> pass, start |-> h.s, n |-> h.n, code |-> "OK"])
         /\ UNCHANGED <<faults, ctl>>
@@ -188,6 +193,8 @@ Submit(h) ==
         /\ Log([ev |-> "Add", pass |-> pass, start |-> h.s, n |-> h.n, code |-> "Internal"])
         /\ UNCHANGED dest
   /\ UNCHANGED <<cfg, out, bag, envv, restarts, verified, pass>>
+
+Submit(h) == SubmitL(h, BatchLeaves(h.s, h.n))
 
 Wake(h) ==
   /\ pc = "run" /\ h \in hold /\ h.st = "wait"
@@ -210,12 +217,14 @@ NextPass ==
   /\ UNCHANGED <<cfg, dest, pipe, envv, faults, restarts, verified, flags, pass, calls, pos, root, sth, proved, gen>>
 
 (* ---------- unwinding a failed / cancelled pass ---------- *)
-StragglerSubmit(h) ==
+StragglerSubmitL(h, leaves) ==
   /\ pc = "unwind" /\ h \in hold /\ h.st = "try" /\ Call
-  /\ Store(BatchLeaves(h.s, h.n))
+  /\ Store(leaves)
   /\ hold' = hold \ {h}
   /\ Log([ev |-> "Add", pass |-> pass, start |-> h.s, n |-> h.n, code |-> "OK"])
   /\ UNCHANGED <<cfg, out, bag, envv, faults, restarts, verified, pass, ctl>>
+
+StragglerSubmit(h) == StragglerSubmitL(h, BatchLeaves(h.s, h.n))
 
 StragglerFetch(r) ==
   /\ pc = "unwind" /\ r \in out /\ Call
@@ -223,15 +232,17 @@ StragglerFetch(r) ==
   /\ Log([ev |-> "Fetch", pass |-> pass, start |-> r.s, end |-> r.e, n |-> r.e - r.s + 1, code |-> "OK"])
   /\ UNCHANGED <<cfg, dest, bag, hold, envv, faults, restarts, verified, flags, pass, ctl>>
 
-EndUnwind ==
-  /\ pc = "unwind"
+\* f: the ghost flags afterwards (trace validation settles its suspicions here)
+EndUnwindF(f) ==
+  /\ pc = "unwind" /\ flags' = f
   /\ out' = {} /\ bag' = {} /\ hold' = {}
   /\ CASE why = "cancel" -> (Return("canceled") /\ UNCHANGED pos)
        [] why = "revoke" -> (pc' = "await" /\ why' = "" /\ UNCHANGED <<result, pos, hist>>)
        [] OTHER -> IF cfg.mode = "master" /\ cfg.cont
                      THEN pc' = "start" /\ why' = "" /\ pos' = 0 /\ UNCHANGED <<result, hist>>   \* runWithRestarts
                      ELSE Return("error") /\ UNCHANGED pos
-  /\ UNCHANGED <<cfg, dest, envv, faults, restarts, verified, flags, pass, calls, root, sth, proved, gen>>
+  /\ UNCHANGED <<cfg, dest, envv, faults, restarts, verified, pass, calls, root, sth, proved, gen>>
+EndUnwind == EndUnwindF(flags)
 
 AwaitDone ==
   /\ pc = "await" /\ master /\ alive
@@ -307,7 +318,7 @@ Bounded == \A i \in Idx : dest[i] # None => i < verified
 Gate == "ungated" \notin flags
 GateAct == [][dest' # dest => (root = 0 \/ proved)]_vars
 \* no conflicting duplicates
-NoConflict == "conflict" \notin flags
+NoConflict == "conflict" \notin flags /\ "outOfRange" \notin flags
 \* a quota reply never ends the pass: the batch is retried (after a back-off) unless something else ended the pass
 QuotaRetried == "quotaAbort" \notin flags
 QuotaAct == [][\A h \in hold : h.st = "wait" =>
